@@ -198,6 +198,15 @@ async fn run(script: Value, out_path: String) -> i32 {
                 let errs = eng.sm.wait_for_flush_completion().await;
                 emit(&mut out, json!({"i": i, "op": "flush_wait", "errors": errs.len()}));
             }
+            "clock_secs" => {
+                snel_db::verif::set_clock_secs(st.get("t").and_then(|t| t.as_u64()));
+            }
+            "clock_millis" => {
+                snel_db::verif::set_clock_millis(
+                    st.get("t").and_then(|t| t.as_u64()),
+                    st.get("auto_step").and_then(|t| t.as_u64()).unwrap_or(0),
+                );
+            }
             "crash" => {
                 emit(&mut out, json!({"i": i, "op": "crash"}));
                 std::process::abort();
